@@ -29,7 +29,27 @@ class Build:
         os.makedirs(self.dir, exist_ok=True)
         self.bins = {}
 
+    def make_locale(self):
+        """a minimal LC_NUMERIC-only locale whose decimal point is a comma (none is installed in this
+        image, but localedef is): the ENABLE_LOCALES code paths can then be exercised for real"""
+        L = os.path.join(self.dir, 'loc')
+        os.makedirs(L, exist_ok=True)
+        with open(os.path.join(L, 'ascii.cm'), 'w') as f:
+            f.write('<code_set_name> ASCII7\n<comment_char> %\n<escape_char> /\nCHARMAP\n')
+            for i in range(128):
+                f.write('<U%04X>     /x%02x         CH%d\n' % (i, i, i))
+            f.write('END CHARMAP\n')
+        with open(os.path.join(L, 'comma.src'), 'w') as f:
+            f.write('comment_char %\nescape_char /\nLC_NUMERIC\ndecimal_point "<U002C>"\nthousands_sep ""\ngrouping -1\nEND LC_NUMERIC\n')
+        subprocess.run(['localedef', '-c', '-f', os.path.join(L, 'ascii.cm'), '-i', os.path.join(L, 'comma.src'), os.path.join(L, 'xx_COMMA')],
+                       stdout=subprocess.DEVNULL, stderr=subprocess.DEVNULL)
+        if os.path.exists(os.path.join(L, 'xx_COMMA', 'LC_NUMERIC')):
+            os.environ['LOCPATH'] = L
+            return True
+        return False
+
     def make(self, flavours):
+        self.have_locale = self.make_locale()
         procs = []
         for fl in flavours:
             out = os.path.join(self.dir, fl)
